@@ -8,7 +8,7 @@ from framework import REPO, ROOT
 
 TIE = ["Nsq.Tie.Life"]
 PROPS = ["Nsq.Props.C08"]
-HARNESS = ["e5/replay_test.go", "e5/life_test.go", "e5/inflight_test.go", "e5/conc_test.go"]
+HARNESS = ["e5/replay_test.go", "e5/life_test.go", "e5/inflight_test.go", "e5/conc_test.go", "e5/pairs_test.go"]
 
 # hook schedules exhibited in Lean (Props/C08.lean) and replayed on the real code
 F7_PANIC = ["f7_empty_stale_index", "f7_req_empty", "f7_touch_empty"]
@@ -18,6 +18,7 @@ KEY_VARIANT = "removeFromInFlightPQ-unrelated-removed"
 KEY_BADFILE = "diskqueue-bad-file-left-behind"
 KEY_ORPHAN = "orphan-durable-channel-under-ephemeral-topic"
 KEY_LEAK = "empty-races-delivery-leaks-inflight-count"
+KEY_NEG = "answer-races-empty-negative-count"
 
 
 def tree_fixed():
@@ -113,8 +114,18 @@ def replay_known(ctx, binp):
     else:
         ctx.evaluations += 1
         if kv.get("starved") == "true" or (kv.get("client_in_flight_count", "0") != "0" and kv.get("in_flight_map") == "0"):
-            ctx.violation(KEY_LEAK, "empty_races_delivery: " + " ".join("%s=%s" % x for x in sorted(kv.items())),
-                          open(os.path.join(ROOT, "corpus", "C08", "known", "empty_races_delivery.sched")).read())
+            report(ctx, KEY_LEAK, "empty_races_delivery: " + " ".join("%s=%s" % x for x in sorted(kv.items())),
+                   open(os.path.join(ROOT, "corpus", "C08", "known", "empty_races_delivery.sched")).read())
+    for name in ("fin_races_empty_count", "req_races_empty_count"):
+        rc, kv, out = run_sched(ctx, binp, name, timeout=90)
+        res[name] = kv or {"error": out[-300:]}
+        if not kv:
+            ctx.broken_ties.append("replay %s did not run (rc=%s)" % (name, rc))
+            continue
+        ctx.evaluations += 1
+        if kv.get("wrong") == "true":
+            report(ctx, KEY_NEG, "%s: %s" % (name, " ".join("%s=%s" % x for x in sorted(kv.items()))),
+                   open(os.path.join(ROOT, "corpus", "C08", "known", name + ".sched")).read())
     rc, kv, out = run_sched(ctx, binp, "orphan_resurrect")
     res["orphan_resurrect"] = kv or {"error": out[-300:]}
     if not kv:
@@ -393,6 +404,44 @@ def concurrent_leg(ctx, binp, rounds, ms, race_bin=None):
     ctx.corr["concurrent_leg"] = res
 
 
+def pairs_leg(ctx, binp):
+    """Thorough: every ordered pair (A parked at each of its yield points, B run inside the window), one
+    process per pair with a deadline.  Oracle: no panic, nothing blocked, the channel answers afterwards."""
+    rc, out = ctx.run_cmd([binp, "-test.run", "^TestVerifE5PairList$", "-test.count=1"], timeout=60)
+    pairs = [l.split()[1] for l in out.splitlines() if l.startswith("E5PAIRSPEC ")]
+    if not pairs:
+        ctx.broken_ties.append("pair list did not run: " + out[-200:])
+        return
+    res = {"pairs": len(pairs), "b_waited_for_a": 0, "heap_map_differ": [], "double_push": []}
+    for p in pairs:
+        rc, out = ctx.run_cmd([binp, "-test.run", "^TestVerifE5Pair$", "-test.count=1", "-test.timeout", "20s"],
+                              timeout=40, env={"VERIF_PAIR": p, "VERIF_SEED": ctx.seed})
+        line = [l for l in out.splitlines() if l.startswith("E5PAIR ")]
+        sched = "pair %s\n# harness/e5/pairs_test.go: VERIF_PAIR='%s' <bin> -test.run '^TestVerifE5Pair$'\n" % (p, p)
+        if not line:
+            if "panic:" in out:
+                pl = [l for l in out.splitlines() if l.startswith("panic:")][0]
+                ctx.violation("pair-panic:" + p, "pair %s: %s" % (p, pl), sched + out[-1500:])
+            else:
+                ctx.violation("daemon-hangs:pair:" + p, "pair %s did not finish within its deadline" % p, sched + out[-800:])
+            continue
+        kv = dict(x.split("=", 1) for x in line[0].split()[1:])
+        ctx.count_case("pair:" + p, nontrivial=kv.get("a_parked") == "true")
+        if kv["a_res"].startswith("panic") or kv["b_res"].startswith("panic"):
+            ctx.violation("pair-panic:" + p, "pair %s: %s" % (p, line[0]), sched + line[0] + "\n")
+        elif "blocked" in (kv["a_res"], kv["b_res"]) or kv.get("probe") not in ("ok",):
+            ctx.violation("daemon-hangs:pair:" + p, "pair %s: %s" % (p, line[0]), sched + line[0] + "\n")
+        if kv.get("b_waited_for_a") == "true":
+            res["b_waited_for_a"] += 1
+        if kv.get("dup") == "true":
+            res["double_push"].append(p)
+        elif kv.get("heap") != kv.get("map"):
+            res["heap_map_differ"].append(p)
+    ctx.corr["pairwise_interleavings"] = res
+    ctx.notes.append("pairwise leg: %d pairs; heap≠map afterwards (the proved counter-examples of MapHeapAgree) in %s; "
+                     "double push in %s" % (len(pairs), res["heap_map_differ"], res["double_push"]))
+
+
 def run(ctx):
     ctx.trusted += [
         "translator tools/go2lean: kinds locknest (lock-nesting relation through the nsqd call graph; "
@@ -448,6 +497,8 @@ def run(ctx):
         if ctx.thorough():
             race_bin = ctx.go_test_binary("nsqd", HARNESS, "e5c08race", race=True)
         concurrent_leg(ctx, binp, ctx.budget(4, 24), ctx.budget(1200, 4000), race_bin)
+        if ctx.thorough():
+            pairs_leg(ctx, binp)
     if (ctx.broken_ties or corr_broken) and not ctx.violations:
         ctx.broken_without_input(ctx.broken_ties + corr_broken,
                                  "search: %d evaluations of the generated histories/schedules found no property failure"
